@@ -239,6 +239,31 @@ func C08(p *core.Program, r *core.Report) {
 					{Name: "anything else is skipped", Guard: core.True(), Outcome: "next()"},
 				},
 			}
+			// spelled as a type switch, the content flag is read through the concrete type (one
+			// condition per kind) and the last-text test is only made for what is neither: the last
+			// retained text is a *webdoc.Text (the atom says so), so it is never an image or a figure
+			cImg := `&` + el + `.(*webdoc.Image).BaseElement.‹bool›`
+			cFig := `&` + el + `.(*webdoc.Figure).Image.BaseElement.‹bool›`
+			if !atoms[`iface.IsContent(`+el+`)`] && atoms[cImg] && atoms[cFig] {
+				spec = core.DecisionSpec{
+					Atoms: map[string]string{
+						"is.image":    q(`is(` + el + `,*webdoc.Image)`),
+						"is.figure":   q(`is(` + el + `,*webdoc.Figure)`),
+						"content.img": q(cImg),
+						"content.fig": q(cFig),
+						"is.last":     qw(el + ` == μ(…` + el + `.(*webdoc.Text)…)`),
+					},
+					Rules: []core.SpecRule{
+						{Name: "a retained image ends the search", Guard: core.And(core.A("is.image"), core.A("content.img")), Outcome: "stop"},
+						{Name: "a retained figure ends the search", Guard: core.And(core.A("is.figure"), core.A("content.fig")), Outcome: "stop"},
+						{Name: "the last retained text ends the search", Guard: core.A("is.last"), Outcome: "stop"},
+						{Name: "dropped image is a candidate", Guard: core.A("is.image"), Outcome: "candidate {" + el + ".(*webdoc.Image)} => next()"},
+						{Name: "dropped figure is a candidate", Guard: core.A("is.figure"), Outcome: "candidate {" + el + ".(*webdoc.Figure)} => next()"},
+						{Name: "anything else is skipped", Guard: core.True(), Outcome: "next()"},
+					},
+					Excl: [][2]string{{"is.image", "is.figure"}, {"is.image", "is.last"}, {"is.figure", "is.last"}},
+				}
+			}
 			core.CheckDecisionList(r, "E2", "LeadImageFinder.Process(candidates)", paths, atoms, spec)
 		}
 		r.Add("E2", "one loop collects the lead image candidates", p.Pos(lp.Pos()), found == 1, fmt.Sprintf("%d loops append image/figure elements to a candidate list", found))
